@@ -76,6 +76,8 @@ fn edits() -> Vec<Move> {
         e("r0", &["put r0.r changed", "ev F:r0.r", "hr"]),
         e("x", &["put x.l 17", "ev F:x.l", "hr"]),
         e("t.n-touch", &["ev F:t.n", "hr"]),
+        // the main cache's OWN asset with the id that scripts look up through the other cache
+        e("z0(main)", &["put z0.l 51", "ev F:z0.l", "hr"]),
     ]
 }
 
@@ -83,7 +85,7 @@ pub fn run(args: &Args) -> SubResult {
     let mut res = SubResult::new("C14", "c14_attrib");
     let thorough = args.thorough();
     let sc = scripts(thorough);
-    res.bound = format!("{} scripts (sequences of <= {} items; items = 9 atoms, each also inside no_record / helper-thread blocks, other-cache blocks, depth-2 nestings) x 10 single-entry edits, each followed by a second edit round (depth 2); two caches; hash seeds 0/5 alternating", sc.len(), if thorough { 3 } else { 2 });
+    res.bound = format!("{} scripts (sequences of <= {} items; items = 9 atoms, each also inside no_record / helper-thread blocks, other-cache blocks, depth-2 nestings) x 11 single-entry edits, each followed by a second edit round (depth 2); two caches; hash seeds 0/5 alternating", sc.len(), if thorough { 3 } else { 2 });
     res.rule = "per script: history = load; edit one entry; notify exactly it; quiesce; hot_reload (x every entry, then x every second entry with deduplication); oracle = reference evaluator's attribution rules closed under dependents vs. the set of handles whose reload id grew (and their values); distinct = distinct (canonical state, observations)".into();
     let total = sc.len();
     vcommon::run_cases(args, res, total, std::time::Duration::from_secs(if thorough { 3000 } else { 300 }), |idx, res| {
@@ -92,10 +94,10 @@ pub fn run(args: &Args) -> SubResult {
             ctor: "hot".into(),
             seed: if idx % 2 == 0 { 0 } else { 5 },
             with_other: true,
-            leaves: vec!["l0".into(), "l1".into(), "s0".into(), "b".into(), "x".into(), "d.a".into(), "d.c".into()],
+            leaves: vec!["l0".into(), "l1".into(), "s0".into(), "b".into(), "x".into(), "d.a".into(), "d.c".into(), "z0".into()],
             nodes: vec!["t".into(), "m".into()],
             dirs: vec!["d".into()],
-            files: vec!["l0.l=1".into(), "l1.l=2".into(), "s0.l=3".into(), "d.a.l=4".into(), "m.n=L:l1".into(), "b.p=boom".into(), "r0.r=raw".into(), format!("t.n={script}")],
+            files: vec!["l0.l=1".into(), "l1.l=2".into(), "s0.l=3".into(), "d.a.l=4".into(), "m.n=L:l1".into(), "b.p=boom".into(), "r0.r=raw".into(), "z0.l=50".into(), format!("t.n={script}")],
             check_c05: true,
             check_c06: true,
             check_c10: true,
@@ -103,7 +105,7 @@ pub fn run(args: &Args) -> SubResult {
             check_presence: false,
         };
         let deep = thorough || (idx + args.seed as usize) % 7 == 0;
-        let s = Search { harness: "c14_attrib", cfg, init: vec!["load N t".into()], moves: vec![edits()], depth: if deep { 2 } else { 1 }, dedup: true, max_hist: 0 };
+        let s = Search { harness: "c14_attrib", cfg, init: vec!["load L z0".into(), "load N t".into()], moves: vec![edits()], depth: if deep { 2 } else { 1 }, dedup: true, max_hist: 0 };
         run_search(res, &s);
     })
 }
